@@ -85,3 +85,35 @@ def log_genotype_prior(dosage: A[i1, 1], log_unique_haplotypes: float, inbreedin
     requires(forall(0, len(dosage), lambda i: dosage[i] >= 0), finite(log_unique_haplotypes))
     requires(0 <= inbreeding, inbreeding < 1)
     ensures(result == LAPRIOR(dosage, len(dosage), log_unique_haplotypes, inbreeding), finite(result))
+
+
+# ---- the prior depends on the dosage vector only through its first n entries
+
+
+@lemma(shared=True)
+def lemma_lgsum_ext(d: A[int, 1], e: A[int, 1], n: int):
+    requires(forall(0, n, lambda i: d[i] == e[i]))
+    ensures(LGSUM(d, n) == LGSUM(e, n))
+    decreases(n)
+    unfold(LGSUM(d, n), LGSUM(e, n))
+    if n > 0:
+        lemma_lgsum_ext(d, e, n - 1)
+
+
+@lemma(shared=True)
+def lemma_dmsum_ext(d: A[int, 1], e: A[int, 1], disp: float, n: int):
+    requires(forall(0, n, lambda i: d[i] == e[i]))
+    ensures(DMSUM(d, disp, n) == DMSUM(e, disp, n))
+    decreases(n)
+    unfold(DMSUM(d, disp, n), DMSUM(e, disp, n))
+    if n > 0:
+        lemma_dmsum_ext(d, e, disp, n - 1)
+
+
+@lemma(shared=True)
+def lemma_laprior_ext(d: A[int, 1], e: A[int, 1], n: int, lu: float, F: float):
+    requires(finite(lu), forall(0, n, lambda i: d[i] == e[i]))
+    ensures(LAPRIOR(d, n, lu, F) == LAPRIOR(e, n, lu, F))
+    lemma_lgsum_ext(d, e, n)
+    lemma_isum_ext(d, e, 0, n)
+    lemma_dmsum_ext(d, e, exp(log((1 - F) / F) - lu), n)
